@@ -79,6 +79,9 @@ def get_finder_for(search_sid, config=None):  # get finder by Sid and optional c
 
 #########################################################
 # Config for GetFromAll
+_getters_by_config = {}  # the Getters are built once per config: GetFromAll groups typed searches by Getter instance
+
+
 def get_getter_for(sid, attribute=None, config=None):
     """
     Configuration used by GetFromAll, to define which Getter is used for a given Sid or Search Sid.
@@ -115,20 +118,23 @@ def get_getter_for(sid, attribute=None, config=None):
     if getter:
         return getter
 
-    getters_by_type = {
-        'project': None,
-        'asset': None,
-        'shot': None,
-        'asset__assettype': None,
-        'asset__state': None,
-        'shot__state': None,
-        # 'asset__asset': GetFromSG(),
-        # 'shot__shot': GetFromSG(),
-        # 'shot__sequence': GetFromSG(),
-        # 'shot__task': GetFromSG(),
-        # 'asset__task': GetFromSG(),
-        'default': GetFromPaths()
-    }
+    getters_by_type = _getters_by_config.get(config)
+    if getters_by_type is None:
+        getters_by_type = {
+            'project': None,
+            'asset': None,
+            'shot': None,
+            'asset__assettype': None,
+            'asset__state': None,
+            'shot__state': None,
+            # 'asset__asset': GetFromSG(),
+            # 'shot__shot': GetFromSG(),
+            # 'shot__sequence': GetFromSG(),
+            # 'shot__task': GetFromSG(),
+            # 'asset__task': GetFromSG(),
+            'default': GetFromPaths()
+        }
+        _getters_by_config[config] = getters_by_type
 
     if sid.type in getters_by_type:
         # getter can be explicitly None
